@@ -461,6 +461,7 @@ def run(ctx: Ctx):
         out.append(o)
         _oracle_composition(ctx, v, f, o, names)
     ctx.correspond("random compositions through set_cell_formatting('datetime') (with directive validation)", req, out)
+    reformat_sequences(ctx, names)
 
     items = []
     for _ in range(n):
@@ -709,11 +710,75 @@ def _reference_workbooks(ctx: Ctx):
                    req, out, exhaustive=True, translated=True)
 
 
+def reformat_sequences(ctx: Ctx, names):
+    """a date cell whose format is changed again after its displayed text was read (same Cell object, no write in between)
+    must display what a freshly written cell with that format displays: datetime formats set one after the other, custom
+    date formats among them (all created before the first read: custom_format_map is memoised by design)."""
+    from numbers_parser import Document
+    rng = ctx.rng
+    fresh = _Impl(ctx)
+    n = 150 if ctx.quick else 3000
+    for i in range(n):
+        v = datetime(rng.choice((999, 1970, 2000, 2001, 2024, 2038)), rng.randrange(1, 13), rng.randrange(1, 29),
+                     rng.randrange(24), rng.randrange(60), rng.randrange(60), rng.choice((0, rng.randrange(1_000_000))))
+        fmts = [(_random_format(rng, names, custom=False) if rng.random() < 0.7 else rng.choice(names), rng.random() < 0.3)
+                for _ in range(rng.randrange(2, 6))]
+        doc = Document(num_header_rows=0, num_header_cols=0, num_rows=2, num_cols=2)
+        table = doc.sheets[0].tables[0]
+        cfs = {}
+        for f, custom in fmts:
+            if custom and f not in cfs:
+                try:
+                    cfs[f] = doc.add_custom_format(type="datetime", format=f)
+                except Exception:  # noqa: BLE001
+                    cfs[f] = None
+        table.write(0, 0, v)
+        seq = []
+        for f, custom in fmts:
+            custom = custom and cfs.get(f) is not None
+            try:
+                if custom:
+                    table.set_cell_formatting(0, 0, "custom", format=cfs[f])
+                else:
+                    table.set_cell_formatting(0, 0, "datetime", date_time_format=f)
+                got = "ok " + enc_text(table.cell(0, 0).formatted_value)
+            except Exception as e:  # noqa: BLE001
+                got = "err " + exc_name(e)
+            want = fresh.render_custom([(v, f)])[0] if custom else fresh.render(v, f)
+            seq.append([f, "custom" if custom else "datetime"])
+            ctx.count("date format changed again on a cell whose displayed text was already read: text vs a freshly written cell", 1)
+            if got.startswith("err") and want.startswith("err"):
+                continue   # a refused format leaves the previous one in place on both sides
+            if got != want:
+                ctx.violation("display-depends-on-format-history",
+                              f"{v.isoformat()}: formats applied in turn to one cell {seq}; after the last one the cell displays "
+                              f"{_dec(got) if got.startswith('ok') else got!r}, a freshly written cell with that format "
+                              f"{_dec(want) if want.startswith('ok') else want!r}",
+                              {"value": v.isoformat(), "format_sequence": seq})
+                break
+        ctx.mark(("reformat", i))
+
+
 def replay(data):
     warnings.simplefilter("ignore")
     i = data.get("input", {})
     res = {}
-    if "ms" in i and "style" in i:
+    if "format_sequence" in i:
+        from numbers_parser import Document
+        v = datetime.fromisoformat(i["value"])
+        doc = Document(num_header_rows=0, num_header_cols=0, num_rows=2, num_cols=2)
+        table = doc.sheets[0].tables[0]
+        cfs = {f: doc.add_custom_format(type="datetime", format=f) for f, k in i["format_sequence"] if k == "custom"}
+        table.write(0, 0, v)
+        steps = []
+        for f, k in i["format_sequence"]:
+            if k == "custom":
+                table.set_cell_formatting(0, 0, "custom", format=cfs[f])
+            else:
+                table.set_cell_formatting(0, 0, "datetime", date_time_format=f)
+            steps.append([f, k, table.cell(0, 0).formatted_value])
+        res["per step [format, route, the same cell displays]"] = steps
+    elif "ms" in i and "style" in i:
         res["formatted_value"] = _dec(_dur_render(_DurStub(), i["ms"], i["style"], i["largest"], i["smallest"], i["auto"]))
     elif "format" in i:
         v = datetime.fromisoformat(i["value"])
